@@ -99,7 +99,9 @@ pub fn run_walk(cx: &mut Ctx, s: &mut Schedule, case: &Value) -> bool {
                     d1.sort();
                     dw.sort();
                     if d1 != dw {
-                        cx.v("C11", "C11.candidates_depend_on_worker_count", format!("step {}: {} candidates with {} workers, {} with 1, as multisets different", step, dw.len(), workers, d1.len()));
+                        // not demanded by the property (a neighbourhood may sample); recorded because the
+                        // simulator's claim that the worker count cannot influence results rests on it
+                        cx.probe("candidate_multiset_differs_between_pools");
                     }
                 }
                 Err(p) => cx.v("C11", &format!("C11.candidate_generation_panics:{}", panic_signature(&p)), format!("step {}: generating candidates (1 worker) panicked: {}", step, p)),
